@@ -137,6 +137,21 @@ func checkReducedLoops(rule *report.Rule, cfg *edt.Config, opaque map[string]boo
 				bad = "cannot follow the function: " + pa.Note
 				break
 			}
+			// the accumulator ENTERS the loop reduced: zero, a small constant, or a packed reduced value —
+			// never a caller's scalar as it came in (a one-element Product / Sum would hand it back unreduced)
+			for _, ev := range pa.Events {
+				i := strings.Index(ev, " enters as ")
+				if !strings.HasPrefix(ev, "loop L") || i < 0 || !strings.Contains(ev[:i], "A<scalar.Scalar>#") {
+					continue
+				}
+				init := ev[i+len(" enters as "):]
+				if (strings.Contains(init, "$") || strings.Contains(init, "havoc")) && !strings.HasPrefix(init, "out1(unpackedScalar.ToBytes(unpackedScalar.MontgomeryReduce(") {
+					bad = "the accumulator enters the loop as " + clip(init, 100) + ", an operand that is not reduced by construction: with a single element the result is that operand, unreduced"
+				}
+			}
+			if bad != "" {
+				break
+			}
 			out := pa.OutcomeString()
 			if !strings.HasPrefix(out, "next-iteration@") {
 				// exit: the result is a copy of the accumulator (loop state or its reduced initial value)
